@@ -205,84 +205,128 @@ Proof.
   - apply (iso_diags_ok g (fuel - 1) Hg).
 Qed.
 
-(* the line claim, under the guard the faithful model needs: a diagnostic of a body parsed on its
-   own slice that does NOT carry the default range 0:0 starts on a line of the body *)
+(* the line claim, WITHOUT exception (the guard "a diagnostic that does not carry the default range 0:0" the
+   faithful model needed before the repair of finding eof-diagnostic-at-origin is gone): EVERY diagnostic of
+   a body parsed on its own slice starts where a token of the body starts and ends where a token of the body
+   ends.  An error at the very end of the slice is reported at the last token the failing statement parser was
+   given, a list item missing at the very end at the separator in front of it.  Nothing remains excluded: an
+   empty body has no diagnostics at all, and the only other reporter, the top-level loop, is not part of a
+   body (its diagnostics are Dpost / those of pre in C09_local, identical in both parses, and it reports at
+   range_of_toks of two tokens of the file, never with the default range). *)
+Theorem C09_new_diags_at_body_tokens :
+  forall fuel memo body d, In d (iso_diags (gram fuel) memo body) ->
+    (exists t, In t body /\ rstart (drange d) = rstart (trange t)) /\
+    (exists t, In t body /\ rend (drange d) = rend (trange t)).
+Proof.
+  intros fuel memo body d Hd.
+  destruct (body_diags_from_body (gram fuel) body (proj2 (proj2 (proj2 (gram_Dg (fun t => In t body) fuel)))) [] (ctx0 memo))
+    as (new & E & Hall).
+  unfold iso_diags, iso in Hd. rewrite E in Hd. simpl in Hd. rewrite app_nil_r in Hd.
+  rewrite Forall_forall in Hall. exact (Hall d Hd).
+Qed.
+
 Theorem C09_new_diags_in_method_lines :
   forall fuel memo body lo hi,
     (forall t, In t body -> lo <= pline (rstart (trange t)) <= hi) ->
     forall d, In d (iso_diags (gram fuel) memo body) ->
-      rstart (drange d) <> rstart range_default ->
       lo <= pline (rstart (drange d)) <= hi.
 Proof.
-  intros fuel memo body lo hi Hlines d Hd Hnd.
-  destruct (body_diags_from_body (gram fuel) body (proj2 (proj2 (proj2 (gram_Dg (fun t => In t body) fuel)))) [] (ctx0 memo))
-    as (new & E & Hall).
-  unfold iso_diags, iso in Hd. rewrite E in Hd. simpl in Hd. rewrite app_nil_r in Hd.
-  rewrite Forall_forall in Hall. destruct (Hall d Hd) as [H0|(t & Ht & Hr)]; [contradiction|].
+  intros fuel memo body lo hi Hlines d Hd.
+  destruct (C09_new_diags_at_body_tokens fuel memo body d Hd) as [(t & Ht & Hr) _].
   rewrite Hr. apply Hlines. exact Ht.
 Qed.
 
-(* the same with the excluded class as a decidable predicate on the body (known-finding class
-   eof-diagnostic-at-origin): some diagnostic of the body in isolation starts at 0:0 *)
-Definition at_origin (d : pdiag) : bool :=
-  (pline (rstart (drange d)) =? 0) && (pcol (rstart (drange d)) =? 0).
-Definition KnownClass_C09 (fuel : nat) (memo : bool) (body : list tok) : bool :=
-  existsb at_origin (iso_diags (gram fuel) memo body).
-
-Theorem C09_lines_hold_outside_known_class :
+(* ... and it ends on a line on which a token of the body ends *)
+Theorem C09_new_diags_end_in_method_lines :
   forall fuel memo body lo hi,
-    KnownClass_C09 fuel memo body = false ->
-    (forall t, In t body -> lo <= pline (rstart (trange t)) <= hi) ->
-    forall d, In d (iso_diags (gram fuel) memo body) -> lo <= pline (rstart (drange d)) <= hi.
+    (forall t, In t body -> lo <= pline (rend (trange t)) <= hi) ->
+    forall d, In d (iso_diags (gram fuel) memo body) ->
+      lo <= pline (rend (drange d)) <= hi.
 Proof.
-  intros fuel memo body lo hi Hk Hlines d Hd.
-  apply (C09_new_diags_in_method_lines fuel memo body lo hi Hlines d Hd).
-  intro E. unfold KnownClass_C09 in Hk.
-  assert (existsb at_origin (iso_diags (gram fuel) memo body) = true) as Hex; [|congruence].
-  apply existsb_exists. exists d. split; [exact Hd|]. unfold at_origin. rewrite E. reflexivity.
+  intros fuel memo body lo hi Hlines d Hd.
+  destruct (C09_new_diags_at_body_tokens fuel memo body d Hd) as [_ (t & Ht & Hr)].
+  rewrite Hr. apply Hlines. exact Ht.
 Qed.
 
-(* ... and WITHOUT the guard the clause "every new diagnostic lies within the lines of that method"
-   is FALSE of the faithful model (and of the code: checks/c09.py replays the witness): an error at
-   the very end of the body slice is reported with Range::default() -- line 0, column 0.
-   finding id: eof-diagnostic-at-origin *)
+(* the class the finding had excluded (some diagnostic of the body in isolation starts at 0:0) is now EMPTY
+   for every body that does not itself start at the origin of the file *)
+Definition at_origin (d : pdiag) : bool :=
+  (pline (rstart (drange d)) =? 0) && (pcol (rstart (drange d)) =? 0).
+
+Theorem C09_no_diag_at_origin :
+  forall fuel memo body,
+    (forall t, In t body -> rstart (trange t) <> rstart range_default) ->
+    existsb at_origin (iso_diags (gram fuel) memo body) = false.
+Proof.
+  intros fuel memo body Hb.
+  destruct (existsb at_origin (iso_diags (gram fuel) memo body)) eqn:E; [|reflexivity]. exfalso.
+  apply existsb_exists in E. destruct E as (d & Hd & Ho).
+  destruct (C09_new_diags_at_body_tokens fuel memo body d Hd) as [(t & Ht & Hr) _].
+  apply (Hb t Ht). rewrite <- Hr. unfold at_origin in Ho. apply andb_prop in Ho. destruct Ho as [H1 H2].
+  apply N.eqb_eq in H1, H2. destruct (rstart (drange d)) as [l c]. cbn [pline pcol] in H1, H2. subst. reflexivity.
+Qed.
+
+(* REGRESSION (finding eof-diagnostic-at-origin, repaired by tools/c09_proposed_fix.diff): the witnesses that
+   refuted the line clause now satisfy it *)
 Definition w_ok : list N := [112;114;111;99;32;65;10;32;120;32;61;32;49;10;101;110;100;112;114;111;99;10;112;114;111;99;32;80;10;32;102;111;111;40;121;41;10;101;110;100;112;114;111;99;10].
 Definition w_bad : list N := [112;114;111;99;32;65;10;32;120;32;61;32;49;10;101;110;100;112;114;111;99;10;112;114;111;99;32;80;10;32;102;111;111;40;121;10;101;110;100;112;114;111;99;10].
 Definition w_sep : list N := [112;114;111;99;32;65;10;32;120;32;61;32;49;10;101;110;100;112;114;111;99;10;112;114;111;99;32;80;10;32;102;111;111;40;121;44;10;101;110;100;112;114;111;99;10].
 
 (* "proc A / x = 1 / endproc / proc P / foo(y) / endproc" parses without diagnostics; replacing the
-   body of P (lines 3..5) by `foo(y` yields exactly one diagnostic, at 0:0-0:0: line 0 is method A *)
-Theorem C09_eof_diag_refuted :
+   body of P (lines 3..5) by `foo(y` yields exactly one diagnostic, on the last token `y` of the body (4:5-4:6) *)
+Theorem C09_eof_diag_regression :
   let t1 := fst (lex w_ok) in let t2 := fst (lex w_bad) in
   cdiags (snd (parse_gold t1)) = [] /\
   firstn 8 t1 = firstn 8 t2 /\
   Forall (fun t => 3 <= pline (rstart (trange t))) (skipn 6 t2) /\
   no_term proc_terms (firstn 3 (skipn 8 t2)) = true /\ extends_header (firstn 3 (skipn 8 t2)) = false /\
-  exists d, cdiags (snd (parse_gold t2)) = [d] /\ drange d = range_default /\ pline (rstart (drange d)) < 3.
+  exists d y, cdiags (snd (parse_gold t2)) = [d] /\ nth_error t2 10 = Some y /\ drange d = trange y /\
+              pline (rstart (drange d)) = 4 /\ pline (rend (drange d)) = 4.
 Proof.
   cbv zeta. split; [vm_compute; reflexivity|]. split; [vm_compute; reflexivity|].
   split; [vm_compute; repeat constructor; discriminate|].
   split; [vm_compute; reflexivity|]. split; [vm_compute; reflexivity|].
-  eexists. split; [vm_compute; reflexivity|]. split; vm_compute; reflexivity.
+  eexists. eexists. split; [vm_compute; reflexivity|]. split; [vm_compute; reflexivity|]. repeat split; vm_compute; reflexivity.
 Qed.
 
-(* the same in the vocabulary of C09_local: the diagnostics of the body `foo(y` in isolation contain
-   a default-range one although every token of the body is on line 4 *)
-Theorem C09_eof_diag_refuted_iso :
+(* the same in the vocabulary of C09_local: every diagnostic of the body `foo(y` in isolation is on line 4,
+   the line of all its tokens, and there is one *)
+Theorem C09_eof_diag_regression_iso :
   let body := firstn 3 (skipn 8 (fst (lex w_bad))) in
   Forall (fun t => pline (rstart (trange t)) = 4) body /\
-  Exists (fun d => drange d = range_default) (iso_diags (gram 20) true body) /\
-  KnownClass_C09 20 true body = true.
+  iso_diags (gram 20) true body <> [] /\
+  Forall (fun d => pline (rstart (drange d)) = 4 /\ pline (rend (drange d)) = 4) (iso_diags (gram 20) true body) /\
+  existsb at_origin (iso_diags (gram 20) true body) = false.
 Proof.
-  cbv zeta. split; [vm_compute; repeat constructor|]. split; [|vm_compute; reflexivity].
-  vm_compute. apply Exists_cons_hd. reflexivity.
+  cbv zeta. split; [vm_compute; repeat constructor|]. split; [vm_compute; discriminate|].
+  split; [vm_compute; repeat constructor|vm_compute; reflexivity].
 Qed.
 
-(* the recovery of a separated list does the same: `foo(y,` -> a diagnostic at 0:0-0:0 (three copies of it while a
-   failed method-call parse was not memoised and the call parser ran three times at that position) *)
-Theorem C09_eof_diag_refuted_seplist :
-  length (filter (fun d => N.eqb (pline (rstart (drange d))) 0) (cdiags (snd (parse_gold (fst (lex w_sep)))))) = 1%nat.
-Proof. vm_compute. reflexivity. Qed.
+(* the recovery of a separated list: `foo(y,` -> the missing argument is reported at the comma (4:6-4:7), nothing on line 0 *)
+Theorem C09_eof_diag_regression_seplist :
+  let ds := cdiags (snd (parse_gold (fst (lex w_sep)))) in
+  ds <> [] /\ forallb (fun d => (pline (rstart (drange d)) =? 4) && (pline (rend (drange d)) =? 4)) ds = true /\
+  existsb (fun d => (pcol (rstart (drange d)) =? 6) && (pcol (rend (drange d)) =? 7)) ds = true.
+Proof. cbv zeta. split; [vm_compute; discriminate|]. split; vm_compute; reflexivity. Qed.
+
+(* ... while the recovery as it WAS (PComb.repeat_w_ctx_old / until_w_ctx_old / sep_list_old: `None => Default::default()`)
+   reports the same errors with the default range 0:0-0:0, on line 0 = method A: the clause "every new diagnostic
+   lies within the lines of that method" was false of the old code *)
+Theorem C09_eof_diag_old_refuted :
+  let body := firstn 3 (skipn 8 (fst (lex w_bad))) in
+  Forall (fun t => pline (rstart (trange t)) = 4) body /\
+  map drange (cdiags (snd (repeat_w_ctx_old (g_stmt (gram 20)) body (ctx0 true)))) = [range_default] /\
+  map drange (cdiags (snd (until_w_ctx_old (exp_token TEndWhile) (g_stmt (gram 20)) body (ctx0 true)))) = [range_default] /\
+  map (fun d => pline (rstart (drange d))) (cdiags (snd (repeat_w_ctx (g_stmt (gram 20)) body (ctx0 true)))) = [4] /\
+  map (fun d => pline (rstart (drange d))) (cdiags (snd (until_w_ctx (exp_token TEndWhile) (g_stmt (gram 20)) body (ctx0 true)))) = [4].
+Proof. cbv zeta. split; [vm_compute; repeat constructor|]. repeat split; vm_compute; reflexivity. Qed.
+
+Theorem C09_eof_diag_old_refuted_seplist :
+  let args := firstn 2 (skipn 10 (fst (lex w_sep))) in        (* `y ,` *)
+  Forall (fun t => pline (rstart (trange t)) = 4) args /\
+  map drange (cdiags (snd (sep_list_old (g_expr (gram 20)) TComma args (ctx0 true)))) = [range_default] /\
+  map (fun d => pline (rstart (drange d))) (cdiags (snd (sep_list (g_expr (gram 20)) TComma args (ctx0 true)))) = [4].
+Proof. cbv zeta. split; [vm_compute; repeat constructor|]. split; vm_compute; reflexivity. Qed.
 
 (* ---------- 4. C09_missing_end ---------- *)
 
@@ -401,11 +445,15 @@ Print Assumptions C09_header_with_params.
 Print Assumptions C09_span_is_unit.
 Print Assumptions C09_toplevel_concat.
 Print Assumptions C09_local.
+Print Assumptions C09_new_diags_at_body_tokens.
 Print Assumptions C09_new_diags_in_method_lines.
-Print Assumptions C09_lines_hold_outside_known_class.
-Print Assumptions C09_eof_diag_refuted.
-Print Assumptions C09_eof_diag_refuted_iso.
-Print Assumptions C09_eof_diag_refuted_seplist.
+Print Assumptions C09_new_diags_end_in_method_lines.
+Print Assumptions C09_no_diag_at_origin.
+Print Assumptions C09_eof_diag_regression.
+Print Assumptions C09_eof_diag_regression_iso.
+Print Assumptions C09_eof_diag_regression_seplist.
+Print Assumptions C09_eof_diag_old_refuted.
+Print Assumptions C09_eof_diag_old_refuted_seplist.
 Print Assumptions C09_missing_end.
 Print Assumptions C09_guard_satisfiable.
 Print Assumptions C09_guard_needed.
